@@ -29,7 +29,7 @@ CHECKS += [
       text="Proof over real entries for every size the property names reached by the tier (quick n<=4, thorough n<=6; nb,na "
            "1..3): identity/dot/mat_mult/mat_vec_mult/augmented_matrix equal their definitions cell by cell with frames; "
            "gj_solve soundness by a ghost-solution cut-point invariant checked after every row operation (result = X on "
-           "every path returning 0 without a zero diagonal); completeness witnesses executed exactly; linalg3.pyx det, "
+           "every path returning 0 without a zero diagonal; a back-substitution row may be left un-normalised only when its pivot is exactly 0, and status 1 out of back substitution requires a zero pivot of the triangular matrix); completeness witnesses executed exactly; linalg3.pyx det, "
            "transform*, zero_matrix_case and eigen_decomposition (modular, against the assumed tred2+tql2 contract). tql2 (QL iteration) is not verified functionally, but its safety contract is proved for every symmetric tridiagonal input and any number of sweeps: the deflation scan stops at the sentinel e[n-1]=0, a sweep starts only with e[l]!=0, p+r!=0, e[n-1]=0 is an invariant of the sweep loop. tred2 (Householder) is proved for the five of its nine paths that have at most one active reflection (orthogonality, A V = V T, e[0]=0); the four two-reflection paths and the tql2 iteration are covered by a bounded native stand-in on 36 matrices.",
       note="float = R; sizes enumerated (the property's own finite range); NOT verified: tred2, tql2 (QL convergence), "
            "get_eigenvalues -> the eigen clause holds only modulo their assumed contract; gj_solve G3 conditional on no "
@@ -144,7 +144,7 @@ CHECKS += [
       text="Slice: write-frame contract for every initialize/initialize_pair/loop/loop_all/post_loop of all 309 shipped "
            "equations (1827 stores, each proved by z3 to address s*d_idx+r, 0<=r<s, or listed as a known scatter write); "
            "Solver.reorder_particles re-orders every array then refreshes the NNPS and solve() does so before the initial "
-           "accelerations; every CPU --nnps branch passes cache and sort_gids=options.sort_gids. Re-proved here (dep.*): deterministic layout of the generated loops (C03), the sorted-neighbour segment and the sort_gids flag of every class (C01), spatially_order_particles (C17). New rule 'refresh': in every shipped one_timestep an evaluation with update_nnps=False is reached only when no paired stepper stage has written positions since the last refresh (schedule run twice); emission order (C03) and integrator schedules (C04) re-proved here.",
+           "accelerations; every CPU --nnps branch passes cache and sort_gids=options.sort_gids. Re-proved here (dep.*): deterministic layout of the generated loops (C03), the sorted-neighbour segment and the sort_gids flag of every class (C01), spatially_order_particles (C17). New rule 'refresh': in every shipped one_timestep an evaluation with update_nnps=False is reached only when no paired stepper stage has written positions since the last refresh (schedule run twice); emission order (C03) and integrator schedules (C04) re-proved here. Per-thread scratch ('scratch'): every list-valued context variable of a group, named in a loop signature or not, gets one aligned slot per thread in the declarations and is pointed at the running thread's slot first thing in the parallel block (CythonGroup.get_variable_array_setup/_get_variable_decl executed symbolically + template text). Neighbour cache (dep.c01.cache): _find_neighbors records the finding thread and its segment, get_neighbors_raw returns that thread's segment whichever thread asks.",
       note="OpenMP ownership of d_idx assumed; whole-run equality across algorithms/threads, bit-reproducibility and float "
            "summation order are NOT decided (no contract expresses them); races have no deterministic replay; 18 scatter "
            "stores in 5 places are open known findings"),
@@ -154,10 +154,10 @@ CHECKS += [
            "contracts (symbolic index sets) of InletBase.update, hybrid Inlet.update, OutletBase.update incl. inactive "
            "stages: extract I={ioid==0} to the fluid then shift exactly x/y/z[I] by +-L*n on inlet/ghost; extract "
            "O={ioid==1} to the outlet THEN remove the same O from the fluid, remove {ioid==2} from the outlet; evaluator "
-           "wiring (zone array maxdist=length, fluid array unbounded, real=False). The ParticleArray contracts the hand-over relies on (extract into an array that may hold ghosts, remove, align, add_particles: C06) are re-proved in this check (dep.c06.*). Zone length: _update_inlet_outlet_info gives |n.(extent+dx)|, one layer has length dx.",
+           "wiring (zone array maxdist=length, fluid array unbounded, real=False). The ParticleArray contracts the hand-over relies on (extract into an array that may hold ghosts, remove, align, add_particles: C06) are re-proved in this check (dep.c06.*). Zone length: _update_inlet_outlet_info gives |n.(extent+dx)|, one layer has length dx. Mirror Outlet.update is executed symbolically with and without a ghost array and for any number of leaving particles: the leaving set is removed from the fluid on every path, the ghost copy is the reflected position with negated u. Every family's SimpleInletOutlet.get_stepper (hybrid, mirror, characteristic, donothing, mod_donothing) sets active_stages=[2] on the branch that hands out zone steppers for any number (0..2 enumerated) of inlets/outlets/ghost zones, and gives every inlet an inlet stepper and every outlet an outlet stepper.",
       note="io_eval.evaluate sets ioid per the IOEvaluate contract (compiled evaluation assumed); ParticleArray "
-           "extract/remove/add contracts are C06's; count conservation follows from them, not re-proved here; mirror "
-           "Outlet.update checked structurally (call order) only"),
+           "extract/remove/add contracts are C06's; count conservation follows from them, not re-proved here; "
+           "get_stepper zone lists are enumerated up to length 2 (loop bodies do not depend on the count)"),
 ]
 
 CHECKS += [
@@ -174,9 +174,9 @@ CHECKS += [
            "stride and creates missing ones with the source's type/default/stride; add_property for every combination of "
            "{array empty or not} x {data or not} x {new or existing name}: default and stride records, length of the new "
            "array, and -- when the first particles arrive with the data -- every other property grown to n*its stride and "
-           "filled with its default. One defect repaired (fix: 86a774b). copy_over_properties and set_to_zero act on every particle and whole stride blocks (loop invariants).",
+           "filled with its default. One defect repaired (fix: 86a774b). copy_over_properties and set_to_zero act on every particle and whole stride blocks (loop invariants). append_parray leaves the receiver's own constants untouched and takes the source's other constants only on request. Pickling: __reduce__ saves name, type, data, default and stride of every property and every constant; __setstate__ starts from empty records and hands every saved record unchanged to add_property / add_constant, then counts the Local particles.",
       note="cyarray (resize/remove/c_align_array/copy_values/extend) contracts and numpy slice assignment assumed; Cython types "
-           "dropped by the extraction; NOT verified: add_property's dtype conversions and its GPU branch, pickling, get/set, clone, "
+           "dropped by the extraction; NOT verified: add_property's dtype conversions and its GPU branch, get/set, clone, "
            "copy_properties -> the record-list equivalence is claimed only for the operations listed"),
  dict(id='C07',
       text="Partial, on the extracted nnps_base.pyx: box wrap proved for any number of particles (quantified invariant: "
@@ -185,7 +185,7 @@ CHECKS += [
            "the mirror translation -2(x-min)/2(max-x) in lockstep); trace contract of the periodic and mirror ghost "
            "construction for two arrays (documented order, images shifted along the right axis from the old end of the "
            "buffer, corner passes over the ghost buffer, matching velocity component negated, lists filled by this "
-           "array's scan); update() removes old ghosts first. One defect repaired (fix: a11db0a). Also: every scan covers the whole column it reads (ghosts of earlier passes included), every ghost buffer is emptied exactly once before images are collected in it, and the first-update branch (buffers cloned) is checked separately.",
+           "array's scan); update() removes old ghosts first. One defect repaired (fix: a11db0a). Also: every scan covers the whole column it reads (ghosts of earlier passes included), every ghost buffer is emptied exactly once before images are collected in it, and the first-update branch (buffers cloned) is checked separately. Construction ('construct'): DomainManager.__init__ forwards every argument under its own name to the manager it creates, CPUDomainManager.__init__ forwards every one to DomainManagerBase.__init__, which stores each in the attribute of the same name (translate = max - min); the facade's methods forward to the manager.",
       note="ParticleArray operations assumed (C06); the set lemma 'every face/edge/corner image exactly once' is "
            "mathematics and only pre-screened; GPU/MPI paths not examined; replay of violations builds the extension "
            "from the working tree (about 1 min)"),
@@ -215,7 +215,7 @@ CHECKS += [
            "BOUNDED stand-in (never counted as proved): extensions built from the working tree, 12 classes x 7 (quick) / "
            "11 (thorough) distributions x dims 1-3 x cache on/off x knob variants x 2 update rounds against the definition. "
            "Two defects repaired (fix: 6eae934, 613605a); open findings in the z-order / stratified-SFC / compressed-octree "
-           "classes listed in known_findings.json. sort_gids: what every class hands to _sort_neighbors is exactly the segment appended by this call, and every constructor records the flag (one more defect repaired: 9af8932).",
+           "classes listed in known_findings.json. sort_gids: what every class hands to _sort_neighbors is exactly the segment appended by this call, and every constructor records the flag (one more defect repaired: 9af8932). NeighborCache ('cache'): _find_neighbors run by thread t records _pid_to_tid[d]=t, the appended segment of _neighbors[t] and _cached[d]=1 and touches no other entry; get_neighbors_raw(d) run by any thread returns exactly (_neighbors[_pid_to_tid[d]], that segment), calling _find_neighbors first iff the entry is not cached (caller proved against the callee's contract); replay: cache filled by the OpenMP loop under 1 and 8 threads, read from the main thread. CellIndexingNNPS key ('cellkey', machine integers: pyvc/cint.py on the typed extraction): the four decoders invert _get_key for all field widths with I+J+K < width of the key type, with no undefined shift; _bin/_refresh choose widths that hold every particle and cell index; the four fields fit the key type for every array of < 2^31 particles on <= 2047 cells per axis (defect repaired: 032fd62, 32-bit keys overflowed at 65536 particles on 256 x 256 cells). Octree root ('octroot'): _calculate_domain's cube contains every particle, the root hmax is the largest h, and both tree classes create the root from these values.",
       note="completeness, duplicate-freedom and index validity of the ten non-linked-list classes are only covered by the "
            "bounded stand-in (C++ hash tables, sorted key arrays and octrees are outside the VC generator); threads filling "
            "the cache are not modelled; pairs at exactly the cut-off are left open as the property says; 'the lists hold "
